@@ -189,7 +189,8 @@ def compare_state(a, b, where, out, seen, lib, neutral=False):
         if a.shape != b.shape or a.kind != b.kind:
             out["diff"].append((where, f"shape/kind {a.shape}/{a.kind} vs {b.shape}/{b.kind}"))
             return
-        if a.backend != b.backend and not neutral:
+        if a.backend != b.backend:
+            # derived tensors must be of the current backend; private copies must not depend on the backend that was current at creation
             out["diff"].append((where, f"tensor made by backend {a.backend}, a fresh object holds one made by {b.backend}"))
         if not all(isinstance(d, int) for d in a.shape):
             out["skipped"].append(where)
@@ -588,8 +589,9 @@ def replay(r):
         states = [(b, p) for b in avail for p in ("64b", "32b")]
         rng = random.Random(11)
         try:
-            for trial in range(12):
-                hist = [rng.choice(states) for _ in range(3)]
+            own = [tuple(h) for h in meta["history"] if tuple(h) in states]
+            hists = ([own] if len(own) == 3 else []) + [[a, a, c] for a in states for c in states if a != c and (a[0] == c[0] or a[1] == c[1] == "64b" or (a[1] != c[1] and a[0] == "numpy"))]
+            for hist in hists:
                 objs = []
                 try:
                     for j, (b, p) in enumerate(hist):
@@ -610,7 +612,8 @@ def replay(r):
                     objs.append(pyhf.Model(spec, poi_name=skel[0].get("poi"), **kw))
                 fresh = objs[-1]
                 tl, _ = pyhf.get_backend()
-                pars = tl.astensor(fresh.config.suggested_init())
+                lo_hi = fresh.config.suggested_bounds()
+                pars = tl.astensor([min(max(v * 1.1 + 0.3, lo + 1e-3), hi - 1e-3) for v, (lo, hi) in zip(fresh.config.suggested_init(), lo_hi)])
                 data = tl.astensor([float(x) for x in np.asarray(tl.tolist(fresh.expected_data(pars)))])
                 want = np.asarray(tl.tolist(fresh.logpdf(pars, data)), dtype=float)
                 for j, o in enumerate(objs[:-1]):
@@ -623,6 +626,10 @@ def replay(r):
                         if type(got_t) is not type(want_t) or str(getattr(got_t, "dtype", "")) != str(getattr(want_t, "dtype", "")):
                             bad[f"{hist}:model{j}:type"] = f"{type(got_t).__name__}/{getattr(got_t, 'dtype', '')} instead of {type(want_t).__name__}/{getattr(want_t, 'dtype', '')}"
                         e_old, e_new = o.expected_data(pars), fresh.expected_data(pars)
+                        ev_old, ev_new = np.asarray(tl.tolist(e_old), dtype=float), np.asarray(tl.tolist(e_new), dtype=float)
+                        etol = 1e-6 if hist[-1][1] == "32b" else 1e-13
+                        if ev_old.shape != ev_new.shape or not np.allclose(ev_old, ev_new, rtol=etol, atol=0.0):
+                            bad[f"{hist}:model{j}:expected_data"] = {"old": ev_old.tolist(), "fresh": ev_new.tolist()}
                         if type(e_old) is not type(e_new) or str(getattr(e_old, "dtype", "")) != str(getattr(e_new, "dtype", "")):
                             bad[f"{hist}:model{j}:expected_data-type"] = f"{type(e_old).__name__}/{getattr(e_old, 'dtype', '')} instead of {type(e_new).__name__}/{getattr(e_new, 'dtype', '')}"
                         tol = 1e-4 if hist[-1][1] == "32b" else 1e-9
@@ -663,6 +670,40 @@ def replay(r):
                     bad[evn] = {"called": log, "live": want}
                 if n and len(ev.trigger(evn)) != len(want):
                     bad[evn + ":flush"] = len(ev.trigger(evn))
+        return {"reproduced": bool(bad), "disagreements": bad}
+    if "set_backend" in name and "request" in meta:
+        import pyhf.events as ev
+        fired = []
+
+        class P:
+            def cb(self):
+                fired.append((pyhf.get_backend()[0].name, pyhf.get_backend()[0].precision))
+        p = P()
+        try:
+            first, (rb, rp) = meta["first"], meta["request"]
+            rb = rb[2:-1] if rb.startswith("b'") else rb
+            rp = None if rp == "None" else (rp[2:-1] if rp.startswith("b'") else rp)
+            pyhf.set_backend(first[0], precision=first[1])
+            ev.subscribe("tensorlib_changed")(p.cb)
+            kw = {"default": bool(meta.get("default"))}
+            if rp is not None:
+                kw["precision"] = rp
+            if meta.get("optimizer"):
+                kw["custom_optimizer"] = meta["optimizer"]
+            pyhf.set_backend(rb, **kw)
+            want = (rb.lower(), (rp or "64b").lower())
+            got = (pyhf.get_backend()[0].name, pyhf.get_backend()[0].precision)
+            if got != want:
+                bad["current backend"] = {"got": got, "requested": want}
+            changed = want != tuple(first)
+            if (fired == [want]) != changed or (not changed and fired):
+                bad["tensorlib_changed"] = {"fired": fired, "backend changed": changed, "from": first, "to": want}
+        except Exception as e:
+            bad["exception"] = f"{type(e).__name__}: {e}"
+        finally:
+            del p
+            _reset_events(pyhf)
+            pyhf.set_backend("numpy", precision="64b", default=True)
         return {"reproduced": bool(bad), "disagreements": bad}
     if "set_backend" in name:
         try:
